@@ -208,6 +208,10 @@ func (c *Concretizer) patchesFor(d Delta) []interface{} {
 		return []interface{}{jsonPatch(map[string]interface{}{"op": "remove", "path": fmt.Sprintf("/m%d", d.I)})}
 	case "addkey_remmem":
 		return []interface{}{addKey(d.I), jsonPatch(map[string]interface{}{"op": "remove", "path": "/m1"})}
+	case "renmem":
+		// (the member named  t~1/x : its pointer token is t~01~1x)
+		return []interface{}{jsonPatch(map[string]interface{}{"op": "move", "from": fmt.Sprintf("/m%d", d.I), "path": "/t~01~1x"},
+			map[string]interface{}{"op": "move", "from": "/t~01~1x", "path": fmt.Sprintf("/m%d", d.I)})}
 	case "remmem_replace":
 		return []interface{}{jsonPatch(map[string]interface{}{"op": "remove", "path": "/m1"}),
 			map[string]interface{}{"action": "replace", "document": map[string]interface{}{"publicKeys": []interface{}{c.docKeyJSON(d.I)}}}}
@@ -440,9 +444,31 @@ func (c *Concretizer) buildDelta(o *ROp) map[string]interface{} {
 			// remove-also-known-as is valid but not enabled in the test protocol
 			delta["patches"] = []interface{}{map[string]interface{}{"action": "remove-also-known-as", "uris": []interface{}{"https://a.example/x"}}}
 		case "invalidpatch":
+			// (an invalid patch has many shapes: an id with characters that are not allowed, the empty id, an id one
+			// character too long, a removal that names the empty id, a key without a type, a purpose nobody knows, a
+			// service whose endpoint is no URI, the same id twice)
 			bad := c.docKeyJSON(1)
-			bad["id"] = "bad id!"
 			delta["patches"] = []interface{}{map[string]interface{}{"action": "add-public-keys", "publicKeys": []interface{}{bad}}}
+
+			switch o.way(8) {
+			case 0:
+				bad["id"] = "bad id!"
+			case 1:
+				bad["id"] = ""
+			case 2:
+				bad["id"] = strings.Repeat("k", 51)
+			case 3:
+				delta["patches"] = []interface{}{map[string]interface{}{"action": "remove-public-keys", "ids": []interface{}{""}}}
+			case 4:
+				delete(bad, "type")
+			case 5:
+				bad["purposes"] = []interface{}{"authentication", "signing"}
+			case 6:
+				delta["patches"] = []interface{}{map[string]interface{}{"action": "add-services", "services": []interface{}{
+					map[string]interface{}{"id": "svc", "type": "T", "serviceEndpoint": "not a uri"}}}}
+			case 7:
+				delta["patches"] = []interface{}{map[string]interface{}{"action": "add-public-keys", "publicKeys": []interface{}{c.docKeyJSON(1), c.docKeyJSON(1)}}}
+			}
 		case "noaction":
 			delta["patches"] = []interface{}{map[string]interface{}{"publicKeys": []interface{}{c.docKeyJSON(1)}}}
 		case "upd_mh":
